@@ -32,6 +32,10 @@ func init() {
 }
 
 func runC01(w *World, r *Report) {
+	// a value is returned only if the operand stack is large enough and the limits were checked on the final tree
+	ruleStackMax(w, r)
+	ruleStackClass(w, r)
+	ruleOrder(w, r)
 	ruleNodeFresh(w, r)
 	ruleErrID(w, r)
 	ruleErrChk(w, r)
@@ -61,6 +65,7 @@ func runC01(w *World, r *Report) {
 	if fn := w.Fn("(*Expr).Eval"); fn != nil {
 		if l, _ := recoverEvalLoop(w, fn); l != nil {
 			ruleScJump(w, r, l)
+			ruleScMust(w, r, l)
 		}
 	}
 }
